@@ -58,8 +58,13 @@ pub fn check_opened(a: &mut Arch, b: &Built, pfx: &str) -> Result<(), Fail> {
         p.retain(|i| b.expected.contains_key(i));
         p
     };
+    let mut budget: i64 = 24 << 20; // bytes fetched and compared per archive (a 300 KB tile with a run of 1000 ids...)
     for id in probe {
         let (off, len) = b.expected[&id];
+        if budget < 0 && b.steer.binary_search(&id).is_err() {
+            continue;
+        }
+        budget -= i64::from(len);
         let got = guarded("get_tile_by_id", || a.get(id))?.map_err(|e| Fail::new(format!("{pfx}/get-err"), format!("get_tile_by_id({id}): {e}")))?;
         let want = &b.bytes[off as usize..off as usize + len as usize];
         match got {
